@@ -6,6 +6,7 @@ import (
 	"errors"
 	"io"
 	"sync"
+	"sync/atomic"
 	"time"
 )
 
@@ -14,9 +15,17 @@ var ErrClosed = errors.New("sim: pipe closed")
 
 // Pipe is a duplex in-memory transport for EndpointCustom. The node reads what the test feeds and
 // the test sees every Write call of the node as one record.
+//
+// The read side and the write side have locks of their own and share nothing but an atomic "closed" flag that
+// both only load: like two directions of a wire, they do not order the node's reader goroutine and its writer
+// goroutine with respect to each other (a single lock would, and the race detector would then see a
+// happens-before edge between them that no real transport provides).
 type Pipe struct {
-	mu   sync.Mutex
+	mu   sync.Mutex // write side and close bookkeeping
 	cond *sync.Cond
+
+	rmu   sync.Mutex // read side
+	rcond *sync.Cond
 
 	in       [][]byte
 	readErr  error
@@ -31,16 +40,19 @@ type Pipe struct {
 	writes      [][]byte
 	writeTimes  []time.Time
 	gateClosed  bool
-	allow       int // writes that may pass the closed gate (AllowWrites)
-	parked      int // writers parked on the gate
+	allow       int    // writes that may pass the closed gate (AllowWrites)
+	partialN    int    // while partialErr is set every Write takes this many bytes ...
+	partialErr  error  // ... and fails with this error (a congested link with a write deadline)
+	partial     []byte // the bytes taken that way, in order
+	parked      int    // writers parked on the gate
 	failAt      map[int]error
 	writeCalls  int
 	alwaysFail  error
 	closeCount  int
-	closeErr    error // returned by Close (FailClose); the pipe closes all the same
+	closeErr    error         // returned by Close (FailClose); the pipe closes all the same
 	closeDelay  time.Duration // Close stays inside the device for this long (SetCloseDelay)
 	closeDone   int           // Close calls that have returned
-	closed      bool
+	closed      atomic.Bool
 	readsIssued int
 	active      int           // Write calls currently inside the transport
 	overlaps    int           // how often a Write began while another was still in progress
@@ -51,6 +63,7 @@ type Pipe struct {
 func NewPipe() *Pipe {
 	p := &Pipe{failAt: map[int]error{}}
 	p.cond = sync.NewCond(&p.mu)
+	p.rcond = sync.NewCond(&p.rmu)
 	return p
 }
 
@@ -59,62 +72,62 @@ func (p *Pipe) Feed(b []byte) {
 	if len(b) == 0 {
 		return
 	}
-	p.mu.Lock()
+	p.rmu.Lock()
 	p.in = append(p.in, append([]byte(nil), b...))
 	p.fed += len(b)
-	p.mu.Unlock()
-	p.cond.Broadcast()
+	p.rmu.Unlock()
+	p.rcond.Broadcast()
 }
 
 // FailReads makes Read return err once everything fed so far has been taken (and on every later call).
 func (p *Pipe) FailReads(err error) {
-	p.mu.Lock()
+	p.rmu.Lock()
 	p.readErr = err
-	p.mu.Unlock()
-	p.cond.Broadcast()
+	p.rmu.Unlock()
+	p.rcond.Broadcast()
 }
 
 // FailNextRead makes exactly one Read call (the pending one, or the next) return err once the queued input is gone.
 func (p *Pipe) FailNextRead(err error) {
-	p.mu.Lock()
+	p.rmu.Lock()
 	p.oneShotErr = err
-	p.mu.Unlock()
-	p.cond.Broadcast()
+	p.rmu.Unlock()
+	p.rcond.Broadcast()
 }
 
 // FeedWithError queues b; the Read call that hands out its last byte returns err along with the data.
 func (p *Pipe) FeedWithError(b []byte, err error) {
-	p.mu.Lock()
+	p.rmu.Lock()
 	p.in = append(p.in, append([]byte(nil), b...))
 	p.fed += len(b)
 	p.errWithLast = err
-	p.mu.Unlock()
-	p.cond.Broadcast()
+	p.rmu.Unlock()
+	p.rcond.Broadcast()
 }
 
 // ReadErrors is how many Read calls returned the injected error so far.
 func (p *Pipe) ReadErrors() int {
-	p.mu.Lock()
-	defer p.mu.Unlock()
+	p.rmu.Lock()
+	defer p.rmu.Unlock()
 	return p.readErrs
 }
 
 // ClearReadError lets reads block again (a "reconnected" custom transport).
 func (p *Pipe) ClearReadError() {
-	p.mu.Lock()
+	p.rmu.Lock()
 	p.readErr = nil
-	p.mu.Unlock()
+	p.rmu.Unlock()
 }
 
 // Read implements io.Reader.
 func (p *Pipe) Read(b []byte) (int, error) {
-	p.mu.Lock()
-	defer p.mu.Unlock()
+	p.rmu.Lock()
+	defer p.rmu.Unlock()
 	p.readsIssued++
-	for len(p.in) == 0 && !p.closed && p.readErr == nil && p.oneShotErr == nil {
+	for len(p.in) == 0 && !p.closed.Load() && p.readErr == nil && p.oneShotErr == nil {
 		p.reading++
-		p.cond.Broadcast()
-		p.cond.Wait()
+		p.rcond.Broadcast()
+		p.rcond.Wait()
 		p.reading--
 	}
 	if len(p.in) > 0 {
@@ -125,7 +138,7 @@ func (p *Pipe) Read(b []byte) (int, error) {
 			p.in[0] = p.in[0][n:]
 		}
 		p.taken += n
-		p.cond.Broadcast()
+		p.rcond.Broadcast()
 		if len(p.in) == 0 && p.errWithLast != nil {
 			// the io.Reader contract allows data and an error in the same call
 			err := p.errWithLast
@@ -135,7 +148,7 @@ func (p *Pipe) Read(b []byte) (int, error) {
 		}
 		return n, nil
 	}
-	if p.closed {
+	if p.closed.Load() {
 		return 0, ErrClosed
 	}
 	p.readErrs++
@@ -164,7 +177,7 @@ func (p *Pipe) Write(b []byte) (int, error) {
 	defer func() { p.active-- }()
 	p.writeCalls++
 	call := p.writeCalls
-	for p.gateClosed && p.allow == 0 && !p.closed {
+	for p.gateClosed && p.allow == 0 && !p.closed.Load() {
 		p.parked++
 		p.cond.Broadcast()
 		p.cond.Wait()
@@ -173,7 +186,7 @@ func (p *Pipe) Write(b []byte) (int, error) {
 	if p.gateClosed && p.allow > 0 {
 		p.allow--
 	}
-	if p.closed {
+	if p.closed.Load() {
 		return 0, ErrClosed
 	}
 	if err, ok := p.failAt[call]; ok {
@@ -181,6 +194,15 @@ func (p *Pipe) Write(b []byte) (int, error) {
 	}
 	if p.alwaysFail != nil {
 		return 0, p.alwaysFail
+	}
+	if p.partialErr != nil {
+		k := p.partialN
+		if k > len(b) {
+			k = len(b)
+		}
+		p.partial = append(p.partial, b[:k]...)
+		p.cond.Broadcast()
+		return k, p.partialErr
 	}
 	p.writes = append(p.writes, append([]byte(nil), b...))
 	p.writeTimes = append(p.writeTimes, time.Now())
@@ -192,11 +214,14 @@ func (p *Pipe) Write(b []byte) (int, error) {
 func (p *Pipe) Close() error {
 	p.mu.Lock()
 	p.closeCount++
-	p.closed = true
+	p.closed.Store(true)
 	err := p.closeErr
 	d := p.closeDelay
 	p.mu.Unlock()
 	p.cond.Broadcast()
+	p.rmu.Lock() // a reader is either past its check of the flag and waiting, or will see the flag
+	p.rmu.Unlock()
+	p.rcond.Broadcast()
 	if d > 0 {
 		time.Sleep(d) // e.g. a serial port draining its output queue
 	}
@@ -247,6 +272,20 @@ func (p *Pipe) AllowWrites(k int) {
 	p.allow += k
 	p.mu.Unlock()
 	p.cond.Broadcast()
+}
+
+// SetPartialWrites: from now on every Write takes n bytes and fails with err; err == nil ends it.
+func (p *Pipe) SetPartialWrites(n int, err error) {
+	p.mu.Lock()
+	p.partialN, p.partialErr = n, err
+	p.mu.Unlock()
+}
+
+// PartialBytes returns the bytes taken by partial writes so far.
+func (p *Pipe) PartialBytes() int {
+	p.mu.Lock()
+	defer p.mu.Unlock()
+	return len(p.partial)
 }
 
 // UnblockWrites opens the gate.
@@ -327,13 +366,24 @@ func (p *Pipe) WaitParkedWriter(timeout time.Duration) bool {
 
 // WaitDrained waits until every fed byte has been taken by the node and a reader is parked again.
 func (p *Pipe) WaitDrained(timeout time.Duration) bool {
-	return p.waitFor(timeout, func() bool { return p.taken == p.fed && (p.reading > 0 || p.closed) })
+	deadline := time.Now().Add(timeout)
+	timer := time.AfterFunc(timeout, func() { p.rcond.Broadcast() })
+	defer timer.Stop()
+	p.rmu.Lock()
+	defer p.rmu.Unlock()
+	for !(p.taken == p.fed && (p.reading > 0 || p.closed.Load())) {
+		if time.Now().After(deadline) {
+			return false
+		}
+		p.rcond.Wait()
+	}
+	return true
 }
 
 // ReaderParked tells whether a Read is currently blocked.
 func (p *Pipe) ReaderParked() bool {
-	p.mu.Lock()
-	defer p.mu.Unlock()
+	p.rmu.Lock()
+	defer p.rmu.Unlock()
 	return p.reading > 0
 }
 
